@@ -10,12 +10,15 @@ CONFIG = dict(
                "(cache, prefix, max-length, AS) with no duplicates (table_is_set); plus the master theorem that the C12 reference "
                "checker accepts every model run outside the recorded open finding.  The model is tied to table/src/lib.rs by "
                "running the real RpkiTable and the model on the same generated histories and diffing every validate result "
-               "(state, reason, the three VRP lists) and every iter listing, with the reference checker as oracle on the real outputs.",
+               "(state, reason, the three VRP lists) and every iter listing, with the reference checker as oracle on the real outputs; "
+               "`show` cases drive the daemon path end to end (PolicyTable-built import assignment with an `rpki STATE` statement behind "
+               "other statements/policies, TableManager::insert_route with its needs_rpki gate, collect_paths, destination_to_api) and "
+               "the oracle judges the state the API shows and whether the policy condition matched.",
     level_note="Trusted: Lean kernel; axioms propext/Classical.choice/Quot.sound; hand-written model (checked only by the "
                "correspondence stream). Modelled, not verified: the patricia_tree crate (get/insert/remove/sorted iteration by its "
                "documented map semantics), the byte-level AS_PATH walk of as_path_origin (the model works on segments; the harness "
-               "encodes them), TableManager::rpki_reset (transcribed in the harness as drop_source + inserts; the real one is "
-               "exercised by C13), Arc<IpAddr> identity (a pair of indices).",
+               "encodes them), Arc<IpAddr> identity (a pair of indices), the policy engine around Condition::Rpki (C14) and the rest of "
+               "the API conversion (C17): `show` is modelled as 'state and reason of validate, filtered iff state = configured state'.",
     lean_modules=["Rbgp.Rpki.Props"],
     theorems=[
         "Rbgp.Rpki.Props.check_run_ok_partial",
@@ -28,7 +31,7 @@ CONFIG = dict(
         "Rbgp.Rpki.Props.run_never_panics",
         "Rbgp.Rpki.Props.not_check_run_ok_full",
     ],
-    harness=dict(kind="pt", bin="c12"),
+    harness=dict(kind="daemon", test="rpki::verif_rpki::verif_main"),
     profiles=["debug"],
     n_quick=3000, n_thorough=60000, shards=12,
     nontrivial_re=r"\(v (valid|invalid)|\(it \(",
@@ -37,18 +40,22 @@ CONFIG = dict(
          "off byte boundaries, VRP prefixes covering / equal / more specific / sibling, max-length below, at and above the "
          "route length, AS in {0,1,2,local}, un-normalised host bits; (b) random prefixes over the real 32/128-bit space; "
          "(c) origin derivations: no AS_PATH, empty path, AS_SEQUENCE / AS_SET / CONFED_SEQ / CONFED_SET tails, ill-formed "
-         "segment types; (d) malformed: masks > 32/128, unparsable cases.  Thorough tier adds the exhaustive enumeration: all "
+         "segment types, 255-AS segments, AS_PATH at positions 0..3 of the attribute list; (d) VRPs and routes of BOTH families in "
+         "one case; (e) `show` = the daemon path (import policy `rpki STATE => reject` for each of the three states, route "
+         "inserted, listed and converted to the API form); (f) malformed: masks > 32/128, unparsable cases.  Thorough tier adds the exhaustive enumeration: all "
          "single VRPs over the 6-bit space, all VRP pairs over a 4-bit space and all triples over a 3-bit space (prefix x 2 "
          "max-lengths x 2 AS), each against ALL routes of the space, at offsets 0 and 5 in both families.  "
          "non-trivial = some validate answered valid/invalid or some iter was non-empty; distinct = distinct case line",
-    expect_tokens=["(v valid", "(v invalid asn", "(v invalid length", "(v notfound", "none", "(it)", "(it (", "(6 x", "(4 x",
-                   "(bad-case)"],
+    expect_tokens=["(v valid", "(v invalid asn", "(v invalid length", "(v notfound", "(it)", "(it (", "(6 x", "(4 x",
+                   "(api valid none t)", "(api valid none f)", "(api invalid asn t)", "(api invalid length t)", "(api invalid asn f)",
+                   "(api notfound none t)", "(api notfound none f)", "(api none f)", "(bad-case)"],
     trusted_base=["model Rbgp/Rpki/Model.lean of table/src/lib.rs RpkiTable (prefix_key, validate, insert, remove, drop_source, iter)",
-                  "harness/pt/src/bin/c12.rs: builds Source/Attribute/Nlri values through the public API; rpki_reset transcribed"],
+                  "harness/daemon/rpki_c12.rs: builds Source/Attribute/Nlri values through the public API; drives the real "
+                  "TableManager (rpki_insert/withdraw/reset/drop_all, insert_route, collect_paths), PolicyTable and destination_to_api"],
     modelled_not_verified=["patricia_tree::PatriciaMap (association list sorted by key)",
                            "Attribute::as_path_origin byte walk (segment-level model)",
-                           "policy-side caller Condition::Rpki and collect_paths: they pass (source, net, attr) through to validate "
-                           "unchanged (read, not executed by this check)"],
+                           "the export-side needs_rpki gate in the session handler (daemon/src/event/mod.rs, export policy): "
+                           "not executed by this check"],
     assumptions=["AS_PATH attributes are what Attribute::decode yields (segment types 1..4, no empty segment); other paths are "
                  "compared model-vs-code but not judged by the oracle",
                  "a cache is identified by its Arc<IpAddr> allocation (one per RTR session), as the table does"],
@@ -65,8 +72,27 @@ def hexnet(fam, value, length):
     return "(%d x%0*x %d)" % (fam, w // 4, value & ((1 << w) - 1), length)
 
 
+def wf_path_for(r, origin):
+    """a path as Attribute::decode can yield it (segment types 1..4, no empty segment): the only kind a
+    route in the RIB can carry, so the only kind `show` is given"""
+    while True:
+        p = path_for(r, origin)
+        if "(0 " not in p and "(5 " not in p and "(2))" not in p:
+            return p
+
+
+def pos_suffix(r):
+    """optionally the position of AS_PATH in the attribute list"""
+    return (" %d" % r.below(4)) if r.chance(1, 3) else ""
+
+
 def path_for(r, origin):
     """an AS_PATH term whose RFC 6811 origin is `origin` (None -> some other derivation)"""
+    if origin is not None and r.chance(1, 25):      # segments of the maximal 255 ASNs
+        long = " ".join(str(64512 + i) for i in range(254))
+        if r.chance(1, 2):
+            return "(path (2 %s %d))" % (long, origin)
+        return "(path (2 %s 9) (1 %s 7) (2 %s %d))" % (long, long, long, origin)
     k = r.below(10)
     if origin is not None and k < 6:
         pre = ["(2 %d)" % r.pick([7, 8, 65010])] if r.chance(1, 2) else []
@@ -112,6 +138,19 @@ def spaces():
 
 def gen_small(r):
     fam, off = r.pick(spaces())
+    ops = small_ops(r, fam, off)
+    if r.chance(1, 3):      # VRPs and routes of the other family in the same table
+        fam2, off2 = r.pick([x for x in spaces() if x[0] != fam])
+        ops2 = small_ops(r, fam2, off2)
+        merged = []
+        while ops or ops2:
+            src = ops if (ops and (not ops2 or r.chance(1, 2))) else ops2
+            merged.append(src.pop(0))
+        ops = merged
+    return "(case %d (ops %s))" % (LOCAL, " ".join(ops))
+
+
+def small_ops(r, fam, off):
     sp = Space(fam, off, 6, TOP4 if fam == 4 else TOP6)
     ops = []
     live = []
@@ -148,13 +187,18 @@ def gen_small(r):
             ops.append("(reset %d %d (%s))" % (c, a, " ".join("(%s %d %d)" % v for v in vs)))
         elif k < 18:
             l = r.below(7); x = r.below(1 << l)
-            ops.append("(val %s %s)" % (sp.net(l, x, r.next() if r.chance(1, 4) else 0),
-                                         path_for(r, r.pick(VASNS) if r.chance(4, 5) else None)))
+            net = sp.net(l, x, r.next() if r.chance(1, 4) else 0)
+            path = path_for(r, r.pick(VASNS) if r.chance(4, 5) else None)
+            if r.chance(1, 4) and off + l <= sp.w:
+                path = wf_path_for(r, r.pick(VASNS) if r.chance(4, 5) else None)
+                ops.append("(show %s %s %s%s)" % (r.pick(["valid", "invalid", "notfound"]), net, path, pos_suffix(r)))
+            else:
+                ops.append("(val %s %s%s)" % (net, path, pos_suffix(r)))
         else:
             ops.append("(iter %d)" % r.pick([fam, fam, fam, 4, 6]))
     if r.chance(1, 2):
         ops.append("(iter %d)" % fam)
-    return "(case %d (ops %s))" % (LOCAL, " ".join(ops))
+    return ops
 
 
 BASES4 = [0x0A000000, 0x0A010100, 0x0A0101FF, 0xC0A80000, 0xFFFFFFFF, 0x00000000, 0x80000000]
@@ -197,7 +241,12 @@ def gen_real(r):
         elif k == 6:
             ops.append(r.pick(["(drop %d %d)" % (c, a), "(iter %d)" % fam]))
         else:
-            ops.append("(val %s %s)" % (hexnet(fam, addr(), ln()), path_for(r, r.pick(VASNS) if r.chance(4, 5) else None)))
+            l = ln(); net = hexnet(fam, addr(), l); path = path_for(r, r.pick(VASNS) if r.chance(4, 5) else None)
+            if r.chance(1, 4) and l <= w:      # a route in the RIB has a decodable mask and path
+                path = wf_path_for(r, r.pick(VASNS) if r.chance(4, 5) else None)
+                ops.append("(show %s %s %s%s)" % (r.pick(["valid", "invalid", "notfound"]), net, path, pos_suffix(r)))
+            else:
+                ops.append("(val %s %s%s)" % (net, path, pos_suffix(r)))
     ops.append("(iter %d)" % fam)
     return "(case %d (ops %s))" % (r.pick([LOCAL, LOCAL, 0, 1]), " ".join(ops))
 
@@ -209,6 +258,8 @@ MALFORMED = [
     "(case 65000 (ops (frob)))",
     "(case 65000)",
     "(case 65000 (ops (val (4 x0a000000 8) (path (2 4294967296)))))",
+    "(case 65000 (ops (val (4 x0a000000 8) nopath 4)))",
+    "(case 65000 (ops (show bogus (4 x0a000000 8) nopath)))",
     "case",
 ]
 
